@@ -7,6 +7,7 @@ import (
 	"go/types"
 	"math"
 	"strings"
+	"time"
 
 	"golang.org/x/tools/go/ssa"
 
@@ -492,6 +493,10 @@ func (e *Engine) step(g *Goroutine) stepResult {
 	e.p.steps++
 	if e.cfg.MaxSteps > 0 && e.p.steps > e.cfg.MaxSteps {
 		e.boundHit("steps", fr.fn.String())
+	}
+	if e.p.steps&0x3ff == 0 && !e.cfg.Deadline.IsZero() && time.Now().After(e.cfg.Deadline) {
+		e.res.Incomplete = "time budget exhausted"
+		e.abort("budget", "deadline")
 	}
 	if g.panic != nil && g.unwinding {
 		return e.unwind(g)
